@@ -4,6 +4,7 @@
 // Real: igris/protocols/gstuff.cpp (encoders + configurable receiver, both alphabets), gstuff_v1/gstuff.c,
 //       gstuff_v1/autorecv.c, igris/datastruct/sline.h, igris/util/crc.h.   Stub: the channel.
 #include "../sim/kit.h"
+#include <string_view>
 
 #include <igris/protocols/gstuff.h>
 extern "C"
@@ -227,7 +228,15 @@ namespace
             if (len < 0 || (size_t)len > maxout) violate("C04/frame-too-long", "encoder returned %d for n=%zu", len, n);
             return Bytes((uint8_t *)out.get(), (uint8_t *)out.get() + len);
         }
-        case ENC_VEC_BUF: return gstuffing(igris::buffer(in.get(), n), ctx);
+        case ENC_VEC_BUF:
+        {
+            // the self-sizing encoder takes an igris::buffer: the payload is handed over as (pointer, length), as a
+            // std::string or as a std::string_view (zero bytes are ordinary payload bytes in all three)
+            int how = (int)((n + (n ? (uint8_t)p[0] : 0)) % 3);
+            if (how == 1) return gstuffing(igris::buffer(std::string(in.get(), n)), ctx); // (the temporary lives until the call returns)
+            if (how == 2) return gstuffing(igris::buffer(std::string_view(in.get(), n)), ctx);
+            return gstuffing(igris::buffer(in.get(), n), ctx);
+        }
         default: return gstuffing_v(iov.data(), iov.size(), ctx);
         }
     }
